@@ -506,7 +506,8 @@ C15_FAMILIES = ["nest", "nest-noname", "nest-multi", "set-width", "coll-set", "a
                 "value-len", "name-len", "unterminated", "endcoll-flood", "member-flood", "addl-no-attr",
                 "name-invalid-utf8", "value-invalid-utf8", "member-count-desc", "member-count-shuffled", "attr-count-desc", "wide-then-many",
                 "set-width-mixed", "member-width-mixed", "set-width-strings", "attr-same-name", "attr-few-names", "set-width-novalue", "member-same-name",
-                "value-len-text", "value-len-keyword", "value-len-withlang", "groups-late-op"]
+                "value-len-text", "value-len-keyword", "value-len-withlang", "groups-late-op",
+                "attr-count-caps", "attr-count-charset", "member-count-caps"]
 C15_RATIO_LIMIT = 2.6
 
 
